@@ -13,6 +13,7 @@ import (
 	"fmt"
 	"os"
 	"strings"
+	"time"
 )
 
 // scriptNamed prints the query with every candidate defined as a Boolean constant gv_i and asks for their values.
@@ -90,7 +91,7 @@ func (q *Query) scriptNamed(cands []*Term) string {
 }
 
 // lazyProve returns (result, iterations). result.Status is "unsat" when proved, otherwise "unknown".
-func lazyProve(goal *Term, cands []*Term, extra []string, fpMode string, dir, name string, callTimeoutS, maxIter int, keep bool) (SolveResult, int) {
+func lazyProve(goal *Term, cands []*Term, extra []string, fpMode string, dir, name string, callTimeoutS, maxIter int, keep bool, deadline time.Time) (SolveResult, int) {
 	longTimeoutS := lazyLongTimeout
 	var sel []*Term
 	inSel := map[*Term]bool{}
@@ -104,6 +105,9 @@ func lazyProve(goal *Term, cands []*Term, extra []string, fpMode string, dir, na
 	}
 	debug := os.Getenv("GOVC_DEBUG") != ""
 	for it := 0; it < maxIter; it++ {
+		if time.Now().After(deadline) {
+			return SolveResult{Status: "unknown"}, it
+		}
 		q := &Query{Hyps: sel, Goal: goal, Extra: extra, FPMode: fpMode}
 		f := writeQuery(dir, fmt.Sprintf("%s.lazy%d", name, it), q.scriptNamed(rest))
 		r := RunPortfolio(f, callTimeoutS, "")
@@ -246,9 +250,9 @@ func pickSplit(goal *Term, tried map[*Term]bool) *Term {
 
 // lazySplit: lazyProve, and when that is undecided, a case analysis on a condition of the goal's conditional
 // terms (both cases must be proved; in each case the condition is replaced by its value everywhere).
-func lazySplit(goal *Term, cands []*Term, extra []string, fpMode string, dir, name string, callTimeoutS, maxIter int, keep bool, depth int) SolveResult {
-	r, _ := lazyProve(goal, cands, extra, fpMode, dir, name, callTimeoutS, maxIter, keep)
-	if r.Status == "unsat" || depth <= 0 {
+func lazySplit(goal *Term, cands []*Term, extra []string, fpMode string, dir, name string, callTimeoutS, maxIter int, keep bool, depth int, deadline time.Time) SolveResult {
+	r, _ := lazyProve(goal, cands, extra, fpMode, dir, name, callTimeoutS, maxIter, keep, deadline)
+	if r.Status == "unsat" || depth <= 0 || time.Now().After(deadline) {
 		return r
 	}
 	c := pickSplit(goal, map[*Term]bool{})
@@ -270,7 +274,7 @@ func lazySplit(goal *Term, cands []*Term, extra []string, fpMode string, dir, na
 		if nq.Goal.Op == "true" {
 			continue
 		}
-		r2 := lazySplit(nq.Goal, nq.Hyps, extra, fpMode, dir, fmt.Sprintf("%s.case%d", name, k), callTimeoutS, maxIter, keep, depth-1)
+		r2 := lazySplit(nq.Goal, nq.Hyps, extra, fpMode, dir, fmt.Sprintf("%s.case%d", name, k), callTimeoutS, maxIter, keep, depth-1, deadline)
 		if r2.Status != "unsat" {
 			return SolveResult{Status: "unknown"}
 		}
